@@ -197,7 +197,7 @@ func (g *tierGate) openAll() {
 
 func init() {
 	checks["C03"] = func(rep *Report, tier string, seed int64) {
-		rep.Rule = "locked L1/L2 stacks (multi- and single-reader mode, main and batch port sharing one lock set): (a) exhaustive schedules: two connections each issue one command (thorough: also 2+1 commands) on the same key, for every pair of command kinds from {set, add, replace, append, prepend, delete, touch, get, gat} with the key initially present or absent; a gate in the fake backends holds every backend request, and every interleaving of the two connections' backend requests that the key locks admit is executed (stateless exploration: each run's schedule is recorded and every feasible alternative choice is run in turn); (b) seeded random concurrent histories of 3..6 connections x 8 commands over 2 keys without the gate; oracle: every history is checked for linearizability against the single-map model per key (porcupine), and when all commands have completed every entry L1 serves must equal L2's entry; distinct = distinct (configuration, command pair, initial state, schedule) / (configuration, history)"
+		rep.Rule = "locked L1/L2 stacks (multi- and single-reader mode, main and batch port sharing one lock set): (a) exhaustive schedules: two connections each issue one command (thorough: also 2+1 commands) on the same key, for every pair of command kinds from {set, add, replace, append, prepend, delete, touch, get, gat} with the key initially absent, present in both tiers, or present in L2 only; a gate in the fake backends holds every backend request, and every interleaving of the two connections' backend requests that the key locks admit is executed (stateless exploration: each run's schedule is recorded and every feasible alternative choice is run in turn); (b) seeded random concurrent histories of 3..6 connections x 8 commands over 2 keys without the gate; oracle: the logged lock modes (write lock for every mutating command and get-and-touch, read locks for get), then every history is checked for linearizability against the single-map model per key (porcupine), and when all commands have completed every entry L1 serves must equal L2's entry; distinct = distinct (configuration, command pair, initial state, schedule) / (configuration, history)"
 		distinct := map[string]bool{}
 		cfgs := []StackCfg{{Orca: "l1l2", Locked: "mr", Bits: 2, L1: "std"}, {Orca: "l1l2", Locked: "sr", Bits: 3, L1: "std"}}
 		if os.Getenv("VERIF_C03_UNLOCKED") != "" {
@@ -231,19 +231,24 @@ func init() {
 				cmds  []Command
 				port  string
 			}
-			runOne := func(initPresent bool, progs [][]Command, ports []string, first int, prefix []int) (schedule []int, feasible bool, what string, replay map[string]interface{}) {
+			runOne := func(initState int, progs [][]Command, ports []string, first int, prefix []int) (schedule []int, feasible bool, what string, replay map[string]interface{}) {
 				st.Reset()
 				st.L1.Gate, st.L2.Gate = nil, nil
 				setup := st.Dial("main", "bin")
 				var hist []porcupine.Operation
 				t0 := time.Now()
-				if initPresent {
+				if initState > 0 {
 					c := Command{Kind: "set", Key: key, Flags: 1, Data: []byte("init"), Opaque: 1}
 					out, e := setup.Feed(c.Encode("bin"), 2*time.Second)
 					ops, _ := linOps(99, "bin", c, out, len(binSentinelReply), e, 0, 1)
 					hist = append(hist, ops...)
 				}
 				setup.Close()
+				if initState == 2 {
+					// the key is held by L2 only: a get has to go to L2 and back-fill L1
+					st.L1.Drop(string(key))
+				}
+				st.TakeLockLog()
 				parties := make([]*party, len(progs))
 				for i := range progs {
 					cl := st.Dial(ports[i], "bin")
@@ -367,7 +372,7 @@ func init() {
 				if !feasible {
 					return schedule, false, "", nil
 				}
-				replay = map[string]interface{}{"stack": cfg.String(), "initially_present": initPresent, "schedule": schedule, "starts_first": first}
+				replay = map[string]interface{}{"stack": cfg.String(), "initial_state": []string{"absent", "in L1 and L2", "in L2 only"}[initState], "schedule": schedule, "starts_first": first}
 				var progDesc [][]string
 				for _, pr := range progs {
 					var ds []string
@@ -379,6 +384,26 @@ func init() {
 				replay["programs"], replay["ports"] = progDesc, ports
 				if notes != "" {
 					return schedule, true, "a command was not answered with its acknowledgement or value: " + notes, replay
+				}
+				// lock modes: a mutating command or get-and-touch must have taken a WRITE lock, a get only read locks
+				lockLog := st.TakeLockLog()
+				wantW := 0
+				for _, pr := range progs {
+					for _, c := range pr {
+						if c.Kind != "get" {
+							wantW++
+						}
+					}
+				}
+				gotW := 0
+				for _, e := range lockLog {
+					if len(e) > 1 && e[0] == 'A' && e[len(e)-1] == 'w' {
+						gotW++
+					}
+				}
+				if gotW != wantW {
+					replay["lock_log"] = lockLog
+					return schedule, true, fmt.Sprintf("%d write-lock acquisitions were logged for %d mutating commands (a mutating command ran under a read lock, or a get under a write lock)", gotW, wantW), replay
 				}
 				res, info := porcupine.CheckOperationsVerbose(linModel, hist, 5*time.Second)
 				_ = info
@@ -395,7 +420,7 @@ func init() {
 				}
 				return schedule, true, "", replay
 			}
-			explore := func(tag string, initPresent bool, progs [][]Command, ports []string) {
+			explore := func(tag string, initState int, progs [][]Command, ports []string) {
 				for first := 0; first < len(progs); first++ {
 					seen := map[string]bool{}
 					var stack [][]int
@@ -404,7 +429,7 @@ func init() {
 					for len(stack) > 0 && runs < 300 {
 						prefix := stack[len(stack)-1]
 						stack = stack[:len(stack)-1]
-						sched, feasible, what, replay := runOne(initPresent, progs, ports, first, prefix)
+						sched, feasible, what, replay := runOne(initState, progs, ports, first, prefix)
 						runs++
 						if !feasible {
 							continue
@@ -416,7 +441,7 @@ func init() {
 						seen[keyS] = true
 						rep.Evaluations++
 						rep.Validated++
-						distinct[fmt.Sprintf("%s/%s/%v/%d/%s", cfg, tag, initPresent, first, keyS)] = true
+						distinct[fmt.Sprintf("%s/%s/%v/%d/%s", cfg, tag, initState, first, keyS)] = true
 						rep.Distribution[fmt.Sprintf("schedule-length:%d", len(sched))]++
 						if what != "" {
 							fail("non-linearizable:"+tag, fmt.Sprintf("%s, %s: %s", cfg, tag, what), replay)
@@ -448,15 +473,15 @@ func init() {
 				if tier != "thorough" && (pi+ci+int(seed))%4 != 0 && !(pr[0] == "get" && pr[1] == "set") && !(pr[0] == "append" && pr[1] == "gat") {
 					continue
 				}
-				for _, present := range []bool{true, false} {
-					ports := []string{"main", []string{"main", "batch"}[(pi+ci)%2]}
-					explore(pr[0]+"+"+pr[1], present, [][]Command{{mk(pr[0], 'a', 11)}, {mk(pr[1], 'b', 12)}}, ports)
+				for initState := 0; initState < 3; initState++ {
+					ports := []string{"main", []string{"main", "batch"}[(pi+ci+initState)%2]}
+					explore(pr[0]+"+"+pr[1], initState, [][]Command{{mk(pr[0], 'a', 11)}, {mk(pr[1], 'b', 12)}}, ports)
 				}
 			}
 			if tier == "thorough" {
 				for k := 0; k < 12; k++ {
 					a, b, c := kinds[r.Intn(len(kinds))], kinds[r.Intn(len(kinds))], kinds[r.Intn(len(kinds))]
-					explore(a+","+c+"+"+b, r.Intn(2) == 0, [][]Command{{mk(a, 'a', 11), mk(c, 'c', 13)}, {mk(b, 'b', 12)}}, []string{"main", "batch"})
+					explore(a+","+c+"+"+b, r.Intn(3), [][]Command{{mk(a, 'a', 11), mk(c, 'c', 13)}, {mk(b, 'b', 12)}}, []string{"main", "batch"})
 				}
 			}
 			// ---- (b) random concurrent histories, no gate
